@@ -292,6 +292,9 @@ class ShapeEval:
         if t[0] == "attr" and t[2] == "ndim":
             s = self.shape(t[1])
             return None if s is None else len(s)
+        if S.is_call_to(t, "numpy.ndim") and (t[2] or t[3]):
+            s = self.shape(t[2][0] if t[2] else t[3][0][1])
+            return None if s is None else len(s)
         if t[0] == "sum":
             tot = t[1]
             for c, x in t[2]:
